@@ -179,3 +179,38 @@ def ufs_needed(asserts):
 
 def model_to_float(env):
     return {k: (float(v) if not isinstance(v, bool) else v) for k, v in env.items()}
+
+
+def check_many(assert_lists, timeout_each=5, solver='z3'):
+    """several independent queries in ONE solver process, separated by (reset) (not push/pop: the
+    incremental core does not run nlsat).  Returns a list of 'unsat' | 'sat' | 'unknown' | 'error'."""
+    parts = []
+    for asserts in assert_lists:
+        asserts = [a for a in asserts if a is not sr.TRUE]
+        if any(a is sr.FALSE for a in asserts):
+            parts.append('(echo "unsat")\n')
+            continue
+        if not asserts:
+            parts.append('(echo "sat")\n')
+            continue
+        decls, defs, name, ufs, vnames = sr.emit(asserts)
+        lines = ['(set-option :timeout %d)' % int(timeout_each * 1000)] + decls + defs
+        lines += ['(assert %s)' % name[a.id] for a in asserts]
+        lines += ['(check-sat)', '(reset)']
+        parts.append('\n'.join(lines) + '\n')
+    text = ''.join(parts)
+    t = time.time()
+    cmd = [Z3 if solver == 'z3' else Z3NEW, '-in']
+    try:
+        p = subprocess.run(cmd, input=text, capture_output=True, text=True, timeout=timeout_each * len(assert_lists) + 30)
+        out = p.stdout
+    except subprocess.TimeoutExpired:
+        out = ''
+    dt = time.time() - t
+    res = [l.strip() for l in out.split('\n') if l.strip() in ('sat', 'unsat', 'unknown') or l.strip().startswith('(error')]
+    res = [('error' if r.startswith('(error') else r) for r in res]
+    while len(res) < len(assert_lists):
+        res.append('unknown')
+    for r in res[:len(assert_lists)]:
+        _stat(solver + '-script', r, dt / max(1, len(assert_lists)))
+    return res[:len(assert_lists)]
